@@ -264,6 +264,11 @@ def write_raw_file(mon,log_file='paramlog.py',**kwds):
   """
   if isNull(mon): return  #XXX: throw error? warning? ???
   steps, energy, ids = read_monitor(mon, id=True) 
+  def _py(v): #NOTE: repr of numpy scalars (e.g. np.float64(1.0)) can't be read
+    if hasattr(v, 'tolist'): return v.tolist()
+    if isinstance(v, (list, tuple)): return type(v)(_py(i) for i in v)
+    return v
+  steps, energy = _py(steps), _py(energy)
   if not len(ids): #XXX: is manipulating ids a good idea?
     ids = None
   elif ids.count(ids[0]) == len(ids): #XXX: generally, all None or all ints
